@@ -39,6 +39,14 @@ func Event(point string, kv ...any) {
 	}
 }
 
+// Note reports a periodic, self-triggered occurrence (a timer tick) to the harness without
+// advancing the step counter, so that timers do not look like progress.
+func Note(point string, kv ...any) {
+	if f, ok := eventSink.Load().(eventFn); ok && f != nil {
+		f(point, kv...)
+	}
+}
+
 // Yield is a schedule perturbation point: the harness may delay the caller here.
 func Yield(point string) {
 	if f, ok := yielder.Load().(yieldFn); ok && f != nil {
